@@ -45,3 +45,128 @@ def zipSameM (f : α → α → Option β) (A B : Tensor α) : Res (Tensor β) :
   else .error .gorgonia
 
 end Gonnx
+
+namespace Gonnx
+variable {α β : Type}
+
+/-- `ops.Slicer` / `tensor.Slice`: start, end, step as the caller gave them -/
+structure Sl where
+  start : Int
+  stop : Int
+  step : Int
+deriving Repr, DecidableEq
+
+/-- `NewSlicer(k)`: the single position k -/
+def Sl.one (k : Int) : Sl := ⟨k, k + 1, 1⟩
+
+/-- what `AP.S` derives for one axis: first position, number of positions, distance between
+positions (in units of the axis), and whether the axis is dropped from the result -/
+structure AxisSel where
+  start : Nat
+  ext : Nat
+  step : Nat
+  drop : Bool
+deriving Repr, DecidableEq
+
+/-- `SliceDetails` + `CheckSlice` + the extent arithmetic of `AP.S` for axis number `i` -/
+def axisSel (i : Nat) (size : Nat) : Option Sl → Res (AxisSel × Int × Int)
+  | none => .ok (⟨0, size, 1, false⟩, 0, size)
+  | some s =>
+    if s.start > s.stop ∨ s.start < 0 ∨ (s.step = 0 ∧ s.stop - s.start > 1) ∨ s.start ≥ size then .error .gorgonia
+    else if s.start ≥ (if s.stop > size then (size : Int) else s.stop) then .error .unmodelled   -- empty selection: gorgonia's behaviour (panics / stale data) is not modelled
+    else
+      let e : Int := if s.stop > size then size else s.stop
+      let ext : Int :=
+        if s.step > 0 then
+          let q := Int.tdiv (e - s.start) s.step
+          let q := if Int.tmod (e - s.start) s.step > 0 ∧ i > 0 then q + 1 else q
+          if q ≤ 0 then 1 else q
+        else e - s.start
+      let stp : Int := if s.step > 0 then s.step else 1
+      .ok (⟨s.start.toNat, ext.toNat, stp.toNat, ext = 1⟩, s.start, e)
+
+def axisSels : Nat → List Nat → List (Option Sl) → Res (List (AxisSel × Int × Int))
+  | _, [], _ => .ok []
+  | i, size :: rest, sls =>
+    match axisSel i size (sls.headD none) with
+    | .error e => .error e
+    | .ok a => match axisSels (i+1) rest sls.tail with
+      | .error e => .error e
+      | .ok r => .ok (a :: r)
+
+/-- row-major strides -/
+def strides : List Nat → List Nat
+  | [] => []
+  | _ :: s => prod s :: strides s
+
+/-- position in the source of index `idx` of the sliced result -/
+def sliceIndex : List AxisSel → List Nat → List Nat
+  | [], _ => []
+  | a :: as, idx =>
+    if a.drop then a.start :: sliceIndex as idx
+    else (a.start + idx.headD 0 * a.step) :: sliceIndex as idx.tail
+
+/-- `t.Slice(slices...)` followed by `Materialize()` -/
+def gSlice [Inhabited α] (t : Tensor α) (slices : List (Option Sl)) : Res (Tensor α) :=
+  if slices.length > t.shape.length then .error .gorgonia
+  else match axisSels 0 t.shape slices with
+    | .error e => .error e
+    | .ok sels =>
+      let st := strides t.shape
+      let ndStart : Int := (List.zipWith (fun (a : AxisSel × Int × Int) (s : Nat) => a.2.1 * s) sels st).foldl (· + ·) 0
+      let ndEnd : Int := (List.zipWith (fun ((a, sz) : (AxisSel × Int × Int) × Nat) (s : Nat) => ((sz : Int) - a.2.2) * s)
+        (sels.zip t.shape) st).foldl (fun acc x => acc - x) (prod t.shape : Int)
+      let as := sels.map (·.1)
+      if ndEnd - ndStart = 1 then
+        .ok ⟨[], [t.data.getD ndStart.toNat default]⟩
+      else
+        let shape' := (as.filter (!·.drop)).map (·.ext)
+        .ok (ofFn shape' fun idx => t.get (sliceIndex as idx))
+
+/-- the permutation itself -/
+def permute [Inhabited α] (t : Tensor α) (p : List Nat) : Tensor α :=
+  let r := t.shape.length
+  ofFn (p.map fun a => dim t.shape a) fun idx =>
+    t.get ((List.range r).map fun j => idx.getD (p.findIdx (· = j)) 0)
+
+/-- `tensor.Transpose(t, perm...)`. A pattern of the wrong length is an error. For a genuine
+permutation of the axes the result is the permuted tensor (the no-op shortcuts `AP.T` takes for
+all-ones shapes, the identity and row/column vectors agree with it). For a pattern of the right
+length that is *not* a permutation gorgonia's answer depends on which shortcut fires (no-op, a
+swapped vector, a scalar, an error or an index panic): not modelled. -/
+def gTranspose [Inhabited α] (t : Tensor α) (perm : List Int) : Res (Tensor α) :=
+  let r := t.shape.length
+  if perm.length ≠ r then .error .gorgonia
+  else if (List.range r).all (fun (j : Nat) => perm.contains (j : Int)) then .ok (permute t (perm.map Int.toNat))
+  else .error .unmodelled
+
+/-- `tensor.Concat(axis, t0, ts...)` on tensors of one element type -/
+def gConcat [Inhabited α] (axis : Int) (ts : List (Tensor α)) : Res (Tensor α) :=
+  match ts with
+  | [] => .error .gorgonia
+  | t0 :: _ =>
+    let r := t0.shape.length
+    if !(ts.all fun t => t.shape.length = r) then .error .gorgonia
+    else if axis = -1 then .error .panic          -- `AllAxes` (-1) is accepted by the shape check and then used as an index
+    else if axis < 0 ∨ axis ≥ r then .error .gorgonia
+    else
+      let ax := axis.toNat
+      if !(ts.all fun t => t.shape.length = r ∧ (List.range r).all fun j => j = ax ∨ dim t.shape j = dim t0.shape j)
+      then .error .gorgonia
+      else
+        let exts := ts.map fun t => dim t.shape ax
+        let total := exts.foldl (· + ·) 0
+        -- piece k covers positions [offs k, offs k + ext k) along the axis
+        let locate (p : Nat) : Nat × Nat :=
+          let rec go (k : Nat) (p : Nat) (es : List Nat) : Nat × Nat :=
+            match es with
+            | [] => (k, p)
+            | e :: rest => if p < e then (k, p) else go (k+1) (p - e) rest
+          go 0 p exts
+        .ok (ofFn (t0.shape.set ax total) fun idx =>
+          let (k, q) := locate (idx.getD ax 0)
+          match ts[k]? with
+          | some t => t.get (idx.set ax q)
+          | none => default)
+
+end Gonnx
